@@ -320,6 +320,7 @@ class Runner:
             tr, ref = T[h], self.refs[h]
             k = a[1]
             frozen = tr._immutable
+            empty_root = (not tr.root.is_leaf) and len(tr.root.elts) == 0
             try:
                 if op == "I":
                     v = a[2]
@@ -391,6 +392,17 @@ class Runner:
                     if cur is not None and cur is self.objs.get((k, a[2])):
                         self.fail("C19/delete_exact/rejected-own", f"op {at} {tok}: ValueError although the stored element was passed", at)
                 return self.after_mutation(h, at, "VE")
+            except IndexError as e:
+                # no operation of a sorted dictionary raises IndexError
+                # trigger class: the root was an internal node without elements before the call (left behind by an
+                # earlier deletion of an absent key, see KNOWN_FINDINGS); anything else is a different failure
+                if empty_root and op in ("D", "X"):
+                    sig = "C19/delete/exception:IndexError/empty-internal-root"
+                else:
+                    sig = f"C19/{op}/exception:IndexError"
+                self.fail(sig,
+                          f"op {at} {tok}: IndexError: {e} (tree {h} before the operation: {self.lines[h][:200]})", at)
+                return self.after_mutation(h, at, "EXC:IndexError")
             if frozen:
                 self.fail("C19/frozen/accepted-mutation", f"op {at} {tok}: mutation of a frozen tree did not raise Immutable", at)
             return self.after_mutation(h, at, res)
@@ -568,8 +580,29 @@ class Runner:
         return "ok " + " ".join(self.tokens) if self.tokens else "ok"
 
 
+_VARIANT = None
+
+
+def collapse_always() -> int:
+    """Which `_delete` the working tree implements (Model.BTree.deleteRoot): 0 = as shipped (an empty internal root is
+    collapsed only when an element was deleted), 1 = intended (collapsed whenever the root is left empty).
+    Probed on the implementation: deleting an absent key makes the two minimal leaves under a one-element root merge."""
+    global _VARIANT
+    if _VARIANT is None:
+        try:
+            tr = btree.BTreeSet(t=3)
+            for k in (0, 2, 4, 6, 8, 10):
+                tr.add(k)
+            tr.discard(10)
+            tr.discard(1)
+            _VARIANT = 0 if (not tr.root.is_leaf and len(tr.root.elts) == 0) else 1
+        except BaseException:
+            _VARIANT = 0
+    return _VARIANT
+
+
 def op_line(case):
-    return f"c19.hist {case['t']} {case['io']} " + " ".join(case["ops"])
+    return f"c19.hist {case['t']} {case['io']} {collapse_always()} " + " ".join(case["ops"])
 
 
 def run_impl(case):
@@ -613,6 +646,9 @@ def minimise(case, sig):
     return dict(case, ops=ops)
 
 
+_MINIMISED = set()
+
+
 def eval_case(ctx: Ctx, case: dict, minimize=True):
     if case.get("kind") == "search":
         ks = case["keys"]
@@ -634,12 +670,14 @@ def eval_case(ctx: Ctx, case: dict, minimize=True):
     ctx.count("hist.t%d.io%d.%s" % (case["t"], case["io"], "set" if case.get("set") else "dict"))
     ctx.count("hist.mutations", r.mutations)
     seen = set()
+    done = _MINIMISED
     for sig, what, at in r.fails:
         if sig in seen:
             continue
         seen.add(sig)
         small = case
-        if minimize:
+        if minimize and sig not in done:
+            done.add(sig)
             try:
                 small = minimise(case, sig)
             except BaseException:
@@ -889,6 +927,65 @@ def gen_history(rng, size_class=None):
     return {"kind": "hist", "t": t, "io": io, "set": g.is_set, "ops": g.ops}
 
 
+def gen_absent_sweeps(rng):
+    """sparse (all-minimal) trees built in key order without the in-order optimisation, then sweeps of deletions of
+    absent keys (each may merge two minimal siblings although nothing is removed), mixed with real deletions,
+    re-insertions, queries and cursor steps"""
+    g = Gen(rng)
+    g.is_set = rng.chance(1, 2)
+    t = rng.choice([3, 3, 4, 5])
+    n = rng.choice([6, 8, 12, 19, 24, 30, 40, 56, 60, 80]) * (1 if t == 3 else 2)
+    pure = rng.chance(1, 3)
+    if pure:  # nothing but whole sweeps over a tree of a few hundred elements at most
+        t = 3
+        n = rng.range(50, 64)
+    present = [2 * i for i in range(n)]
+    order = rng.choice(["asc", "asc", "desc", "nearasc"])
+    if pure:
+        for k in key_order(rng, present, rng.choice(["asc", "desc"])):
+            g.ins(0, k)
+        for rep in range(8):
+            for k in range(1, 2 * n, 2):
+                g.dele(0, k)
+        return {"kind": "hist", "t": t, "io": 0, "set": g.is_set, "ops": g.ops}
+    for k in key_order(rng, present, order):
+        g.ins(0, k)
+    if rng.chance(1, 3):
+        g.ops.append("c,0")
+        g.open_curs.append((0, 0))
+        g.ncurs = 1
+    clone = rng.chance(1, 4)
+    if clone:
+        g.ops += ["F,0", "C,0,0"]
+        g.frozen[0] = True
+        g.frozen.append(False)
+        g.present.append(set(g.present[0]))
+        g.pairs.append(dict(g.pairs[0]))
+        g.ntrees = 2
+    h = 1 if clone else 0
+    absent = [2 * i + 1 for i in range(n)]
+    for rep in range(rng.range(2, 7)):
+        sweep = key_order(rng, absent, rng.choice(["asc", "asc", "desc", "rand"]))
+        if rng.chance(1, 2):
+            sweep = sweep[: rng.range(1, len(sweep))]
+        for k in sweep:
+            g.dele(h, k)
+            m = rng.below(40)
+            if m == 0:
+                pres = sorted(g.present[h])
+                if pres:
+                    g.dele(h, rng.choice(pres))
+            elif m == 1:
+                g.ins(h, rng.choice(present))
+            elif m == 2:
+                g.queries(h, 2 * n)
+            elif m == 3 and g.open_curs:
+                g.cursor_ops(2, 2 * n)
+        if len(g.ops) > 700:
+            break
+    return {"kind": "hist", "t": t, "io": 0, "set": g.is_set, "ops": g.ops}
+
+
 def gen_malformed(rng):
     """histories with invalid handles, clones of mutable trees, foreign exact deletes, closed cursors, junk tokens"""
     c = gen_history(rng, "tiny" if rng.chance(1, 2) else "small")
@@ -936,6 +1033,11 @@ def generate(ctx: Ctx, scale: float, rng):
         case = gen_history(rng)
         r = eval_case(ctx, case)
         ctx.case(("hist", case["t"], case["io"], case["set"], tuple(case["ops"])), nontrivial=bool(r and r.mutations), sample=_sample(case))
+    for i in range(max(1, int(30 * scale))):
+        case = gen_absent_sweeps(rng)
+        r = eval_case(ctx, case)
+        ctx.count("absent-sweeps")
+        ctx.case(("abs", case["t"], case["set"], tuple(case["ops"])), nontrivial=bool(r and r.mutations), sample=_sample(case))
     for i in range(max(1, int(60 * scale))):
         case = gen_malformed(rng)
         r = eval_case(ctx, case)
@@ -983,7 +1085,7 @@ def replay(ctx: Ctx, obj: dict):
 def impl_of_op(op: str):
     f = op.split()
     if f[0] == "c19.hist":
-        return run_impl({"kind": "hist", "t": int(f[1]), "io": int(f[2]), "set": False, "ops": f[3:]})[1]
+        return run_impl({"kind": "hist", "t": int(f[1]), "io": int(f[2]), "set": False, "ops": f[4:]})[1]
     return "?"
 
 
